@@ -241,3 +241,98 @@ Proof.
   destruct (loop_ok content l (S (length ps)) ps 0%nat 0 rs (Nat.lt_succ_diag_r _) Hp Hch Hfe Hend) as (lines & H1 & H2).
   exists lines. split; [exact H1|]. rewrite H2. apply reqd_zero.
 Qed.
+
+(* ------------------------------------------------------------------------------------------ *)
+(* footer                                                                                     *)
+(* ------------------------------------------------------------------------------------------ *)
+
+Lemma le_roundtrip : forall (k : nat) (x : N), x < 256 ^ N.of_nat k -> le_val (le_bytes k x) = x.
+Proof.
+  induction k as [|k IH]; intros x Hx.
+  - cbn [le_bytes le_val]. change (256 ^ N.of_nat 0) with 1 in Hx. lia.
+  - cbn [le_bytes le_val]. rewrite IH.
+    + pose proof (N.div_mod x 256). lia.
+    + rewrite Nat2N.inj_succ, N.pow_succ_r' in Hx. apply N.div_lt_upper_bound; lia.
+Qed.
+
+Lemma le_bytes_length (k : nat) (x : N) : length (le_bytes k x) = k.
+Proof. revert x; induction k as [|k IH]; intros x; cbn [le_bytes length]; [reflexivity | now rewrite IH]. Qed.
+
+Definition footer_in_range (f : footer) : Prop :=
+  ft_col_meta_start f < 2 ^ 64 /\ ft_cmo_start f < 2 ^ 64 /\ ft_gbo_start f < 2 ^ 64 /\
+  ft_num_gbuf f < 2 ^ 32 /\ ft_num_cols f < 2 ^ 32 /\ ft_major f < 2 ^ 16 /\ ft_minor f < 2 ^ 16.
+
+Lemma take_at_prefix (pre t : bytes) (o n : nat) :
+  take_at (pre ++ t) (length pre + o) n = take_at t o n.
+Proof.
+  unfold take_at. rewrite skipn_app. rewrite skipn_all2 by lia.
+  replace (length pre + o - length pre)%nat with o by lia. reflexivity.
+Qed.
+
+Lemma decode_footer_suffix (pre t : bytes) : length t = 40%nat -> decode_footer (pre ++ t) = decode_footer t.
+Proof.
+  intros Ht. unfold decode_footer. rewrite app_length, Ht.
+  replace (length pre + 40 <? 40)%nat with false by (symmetry; apply Nat.ltb_ge; lia).
+  change (40 <? 40)%nat with false. cbv beta iota.
+  replace (length pre + 40 - 40)%nat with (length pre + 0)%nat by lia.
+  replace (length pre + 40 - 4)%nat with (length pre + 36)%nat by lia.
+  change (40 - 40)%nat with 0%nat. change (40 - 4)%nat with 36%nat.
+  replace (length pre + 0 + 8)%nat with (length pre + 8)%nat by lia.
+  replace (length pre + 0 + 16)%nat with (length pre + 16)%nat by lia.
+  replace (length pre + 0 + 24)%nat with (length pre + 24)%nat by lia.
+  replace (length pre + 0 + 28)%nat with (length pre + 28)%nat by lia.
+  replace (length pre + 0 + 32)%nat with (length pre + 32)%nat by lia.
+  replace (length pre + 0 + 34)%nat with (length pre + 34)%nat by lia.
+  rewrite !take_at_prefix. reflexivity.
+Qed.
+
+Lemma footer_bytes_length (f : footer) : length (footer_bytes f) = 40%nat.
+Proof. unfold footer_bytes. rewrite !app_length, !le_bytes_length. reflexivity. Qed.
+
+(* parse (serialize f) = f for all field values in range; the legacy version pair is refused *)
+Lemma decode_footer_exact (f : footer) :
+  footer_in_range f -> (ft_major f =? 0) && (ft_minor f =? 2) = false ->
+  decode_footer (footer_bytes f) = Ok f.
+Proof.
+  intros (H1 & H2 & H3 & H4 & H5 & H6 & H7) Hv. destruct f as [a b c d e ma mi]; cbn [ft_col_meta_start ft_cmo_start ft_gbo_start ft_num_gbuf ft_num_cols ft_major ft_minor] in *.
+  unfold decode_footer, footer_bytes.
+  cbn [ft_col_meta_start ft_cmo_start ft_gbo_start ft_num_gbuf ft_num_cols ft_major ft_minor].
+  cbn [le_bytes app length MAGIC Nat.ltb Nat.leb Nat.sub Nat.add take_at firstn skipn].
+  change (le_val [a mod 256; a / 256 mod 256; a / 256 / 256 mod 256; a / 256 / 256 / 256 mod 256;
+                  a / 256 / 256 / 256 / 256 mod 256; a / 256 / 256 / 256 / 256 / 256 mod 256;
+                  a / 256 / 256 / 256 / 256 / 256 / 256 mod 256; a / 256 / 256 / 256 / 256 / 256 / 256 / 256 mod 256])
+    with (le_val (le_bytes 8 a)).
+  change (le_val [b mod 256; b / 256 mod 256; b / 256 / 256 mod 256; b / 256 / 256 / 256 mod 256;
+                  b / 256 / 256 / 256 / 256 mod 256; b / 256 / 256 / 256 / 256 / 256 mod 256;
+                  b / 256 / 256 / 256 / 256 / 256 / 256 mod 256; b / 256 / 256 / 256 / 256 / 256 / 256 / 256 mod 256])
+    with (le_val (le_bytes 8 b)).
+  change (le_val [c mod 256; c / 256 mod 256; c / 256 / 256 mod 256; c / 256 / 256 / 256 mod 256;
+                  c / 256 / 256 / 256 / 256 mod 256; c / 256 / 256 / 256 / 256 / 256 mod 256;
+                  c / 256 / 256 / 256 / 256 / 256 / 256 mod 256; c / 256 / 256 / 256 / 256 / 256 / 256 / 256 mod 256])
+    with (le_val (le_bytes 8 c)).
+  change (le_val [d mod 256; d / 256 mod 256; d / 256 / 256 mod 256; d / 256 / 256 / 256 mod 256]) with (le_val (le_bytes 4 d)).
+  change (le_val [e mod 256; e / 256 mod 256; e / 256 / 256 mod 256; e / 256 / 256 / 256 mod 256]) with (le_val (le_bytes 4 e)).
+  change (le_val [ma mod 256; ma / 256 mod 256]) with (le_val (le_bytes 2 ma)).
+  change (le_val [mi mod 256; mi / 256 mod 256]) with (le_val (le_bytes 2 mi)).
+  rewrite !le_roundtrip by assumption.
+  rewrite Hv. reflexivity.
+Qed.
+
+Theorem footer_roundtrip (pre : bytes) (f : footer) :
+  footer_in_range f -> (ft_major f =? 0) && (ft_minor f =? 2) = false ->
+  decode_footer (pre ++ footer_bytes f) = Ok f.
+Proof.
+  intros Hr Hv. rewrite decode_footer_suffix by apply footer_bytes_length. now apply decode_footer_exact.
+Qed.
+
+Lemma footer_truncated (t : bytes) : (length t < 40)%nat -> decode_footer t = Err.
+Proof. intros H. unfold decode_footer. apply Nat.ltb_lt in H. now rewrite H. Qed.
+
+(* a tail whose last four bytes are not "LANC" is refused (Err or, for the legacy version pair, Err too) *)
+Lemma footer_bad_magic (t : bytes) :
+  list_eqb N.eqb (take_at t (length t - 4) 4) MAGIC = false -> decode_footer t = Err.
+Proof.
+  intros H. unfold decode_footer. destruct (length t <? 40)%nat; [reflexivity|].
+  cbv zeta. match goal with |- (if ?c then _ else _) = _ => destruct c end; [reflexivity|].
+  rewrite H. reflexivity.
+Qed.
